@@ -72,41 +72,42 @@ def batch(args):
                                               for i in range(b)))
         if n1 != len(empties):
             return
-        for j, i in enumerate(empties):
+        calls = prob.h.calls
+        for i in empties:
             ind = inds[i]
-            vec, vals, _f = prob.h.calls[j]
-            ctx.check('call-order-and-vector', Not(ec.same_vec(vec, init[i][1])))
+            # order of the calls inside a batch is not promised: match calls to designs by vector (the
+            # uninterpreted objective is congruent, so every call on an equal vector returns equal values)
+            ctx.check('objective-called-on-every-new-design', Not(Or(*[ec.same_vec(vec, init[i][1]) for vec, _v, _f in calls])))
             ctx.check('stored-vector-unchanged', Not(ec.same_vec(ind.vector, init[i][1])))
             ctx.check('state-evaluated', ind.state != Individual.State.EVALUATED)
             ctx.check('costs-length', len(ind.costs) != o)
-            ctx.check('costs-are-objective-values', Or(*[a != b_ for a, b_ in zip(ind.costs, vals)]))
+            if len(ind.costs) == o:
+                ctx.check('costs-are-objective-values-of-the-stored-vector',
+                          Not(Or(*[And(ec.same_vec(vec, init[i][1]), And(*[a == b_ for a, b_ in zip(ind.costs, vals)]))
+                                   for vec, vals, _f in calls])))
             ctx.check('signed-length', len(ind.costs_signed) != o + 1)
-            exp = [_sign(criteria[k]) * ops.sround(vals[k], ind.features['precision'], numpy_style=True) for k in range(o)]
-            ctx.check('signed-costs', Or(*[ops.far(a, e, 1e-12) for a, e in zip(ind.costs_signed[:-1], exp)]))
-            ctx.output('signed%d' % i, list(ind.costs_signed[:-1]))
-            if ncon:
-                g = None
-                for cv, cvals in prob.h.con_calls:
-                    g = cvals if g is None and True else g
-                # the constraint call that belongs to this design is the j-th one
-                cvec, cvals = prob.h.con_calls[j]
-                ctx.check('constraints-on-stored-vector', Not(ec.same_vec(cvec, init[i][1])))
-                feas = And(*[v < 0 for v in cvals])
-                ctx.check('marker-ranks-feasible-first', Not(Iff(bool(ind.costs_signed[-1]) is False, feas)))
-            else:
-                ctx.check('marker-constant-without-constraints', ind.costs_signed[-1] is not True)
+            if len(ind.costs) == o and len(ind.costs_signed) == o + 1:
+                exp = [_sign(criteria[k]) * ops.sround(ind.costs[k], ind.features['precision'], numpy_style=True) for k in range(o)]
+                ctx.check('signed-costs', Or(*[ops.far(a, e, 1e-12) for a, e in zip(ind.costs_signed[:-1], exp)]))
+                ctx.output('signed%d' % i, list(ind.costs_signed[:-1]))
+                if ncon:
+                    ok = [And(ec.same_vec(cvec, init[i][1]), Iff(bool(ind.costs_signed[-1]) is False, And(*[v < 0 for v in cvals])))
+                          for cvec, cvals in prob.h.con_calls]
+                    ctx.check('marker-ranks-feasible-first', Not(Or(*ok)))
+                else:
+                    ctx.check('marker-constant-without-constraints', ind.costs_signed[-1] is not True)
         for i in range(b):
             if init[i][0] == Individual.State.EVALUATED:
                 ctx.check('evaluated-untouched', inds[i].state != Individual.State.EVALUATED or
                           list(inds[i].costs) != init[i][2] or list(inds[i].costs_signed) != init[i][3])
         if ncon and len(empties) >= 2:
             a, c = inds[empties[0]], inds[empties[1]]
-            fa = And(*[v < 0 for v in prob.h.con_calls[0][1]])
-            fc = And(*[v < 0 for v in prob.h.con_calls[1][1]])
-            ctx.check('feasible-design-preferred',
-                      And(fa, Not(fc), common.textbook(a.costs_signed, c.costs_signed) != 1))
-            ctx.check('feasible-design-preferred-rev',
-                      And(fc, Not(fa), common.textbook(a.costs_signed, c.costs_signed) != 2))
+            if len(a.costs_signed) == o + 1 and len(c.costs_signed) == o + 1:
+                def feas(vec0):
+                    return Or(*[And(ec.same_vec(cvec, vec0), And(*[v < 0 for v in cvals])) for cvec, cvals in prob.h.con_calls])
+                fa, fc = feas(init[empties[0]][1]), feas(init[empties[1]][1])
+                ctx.check('feasible-design-preferred', And(fa, Not(fc), common.textbook(a.costs_signed, c.costs_signed) != 1))
+                ctx.check('feasible-design-preferred-rev', And(fc, Not(fa), common.textbook(a.costs_signed, c.costs_signed) != 2))
     return body
 
 
